@@ -9,6 +9,8 @@ Events are delivered at named loop positions; after delivering one the harness w
 blocked in input() again or has terminated, so every schedule is reproducible.
 
 Positions: ('before_pop', i) / ('after_pop', i): around the i-th call of PcfgQueue.next (1-based);
+           ('before_expand', i): the i-th popped pre-terminal has passed the quit check, is the status report's current one and
+                                 create_guesses is about to be entered for it;
            ('guess', j): right after the j-th guess of this run was written (1-based);
            ('omen_next', j): inside a Markov level, while the generator is asked for what will be the j-th guess of the
                              run (after the quit check that followed guess j-1, before guess j is written).
@@ -239,6 +241,16 @@ def run_main(root, argv, events=(), fail_stderr_after=None, clock_step=None, std
         res.guess_pop.append(len(res.pops))
         sched.at(('guess', state['guesses']))
 
+    orig_create = pgm.PcfgGrammar.create_guesses
+    saved['create'] = orig_create
+    state['expands'] = 0
+
+    def create_(self, pt, *a, **k):
+        # the i-th pre-terminal of this run has been made the "current" one of the status report and is about to be expanded
+        state['expands'] += 1
+        sched.at(('before_expand', state['expands']))
+        return orig_create(self, pt, *a, **k)
+
     import lib_guesser.omen.markov_cracker as mc
     orig_mc_next = mc.MarkovCracker.next_guess
     saved['mc_next'] = orig_mc_next
@@ -344,6 +356,7 @@ def run_main(root, argv, events=(), fail_stderr_after=None, clock_step=None, std
         pq.PcfgQueue.next = next_
         pgm.PcfgGrammar.print_guess = print_
         sr.StatusReport.print_status = status_
+        pgm.PcfgGrammar.create_guesses = create_
         mc.MarkovCracker.next_guess = mc_next
         cs.CrackingSession._save_session = save_
         pg.__file__ = os.path.join(root, 'pcfg_guesser.py')
@@ -370,6 +383,7 @@ def run_main(root, argv, events=(), fail_stderr_after=None, clock_step=None, std
         pq.PcfgQueue.next = saved['next']
         pgm.PcfgGrammar.print_guess = saved['print_guess']
         sr.StatusReport.print_status = saved['status']
+        pgm.PcfgGrammar.create_guesses = saved['create']
         mc.MarkovCracker.next_guess = saved['mc_next']
         cs.CrackingSession._save_session = saved['save']
         pg.__file__ = saved['file']
